@@ -33,6 +33,17 @@ Theorem c11_no_new_after_stop : forall l ops,
 Proof. exact no_new_after_shutdown. Qed.
 Print Assumptions c11_no_new_after_stop.
 
+(* "stops accepting new connections" at full strength: from the moment the drain starts (cb.OnShutdown is invoked with the
+   listener already closed) and ever after, a TCP connect is REFUSED - it is not established into the backlog of a socket
+   that nobody accepts from, where its request would never be read *)
+Theorem c11_refused_during_and_after_drain : forall l ops,
+  l_wf l -> l_bind l = true ->
+  forallb (fun o => negb (is_restart o)) ops = true ->
+  (exists l', l_at_drain false l = Some l' /\ l_connect l' = CRefused) /\
+  l_connect (l_run (l_shutdown false l) ops) = CRefused.
+Proof. exact refused_during_and_after_drain. Qed.
+Print Assumptions c11_refused_during_and_after_drain.
+
 (* hot upgrade: after Shutdown while Upgrading the old process accepts nothing (until a Start resumes it), the listening
    socket keeps its identity and is not closed by it *)
 Theorem c11_no_new_after_stop_upgrade : forall l ops,
@@ -48,7 +59,8 @@ Example c11_listener_example :
   let l := l_run (l_init true false) [OpStart false] in
   l_wf l /\ l_bind l = true /\ l_accepts l = true /\
   l_accepts (l_run (l_shutdown false l) [OpStart false; OpShutdown true; OpClose]) = false /\
-  l_sock (l_shutdown true l) = SDeadline /\ l_accepts (l_run (l_shutdown true l) [OpStart false]) = true.
+  l_sock (l_shutdown true l) = SDeadline /\ l_accepts (l_run (l_shutdown true l) [OpStart false]) = true /\
+  l_connect l = CAccepted /\ l_connect (l_shutdown true l) = CBacklog /\ l_connect (l_shutdown false l) = CRefused.
 Proof.
   cbn zeta. split; [apply (l_wf_run [OpStart false]); apply l_wf_init|]. vm_compute. repeat split; reflexivity.
 Qed.
